@@ -164,10 +164,15 @@ impl PendingEntryList {
 //@@|         self.entries_by_consumer@ == old(self).idx().remove(cname),
 //@@|         forall|x: StreamId| #[trigger] self.entries_by_id@.contains_key(x) <==> (old(self).ids().contains_key(x) && !list.take(it.index@ as int).contains(x)),
 //@@|         forall|x: StreamId| #[trigger] self.entries_by_id@.contains_key(x) ==> self.entries_by_id@[x] == old(self).ids()[x],
+//@@|         self.entries_by_id@.dom().len() + it.index@ == old(self).ids().dom().len(),
+//@@|         list.no_duplicates(), forall|k: int| 0 <= k < list.len() ==> old(self).ids().contains_key(#[trigger] list[k]),
 //@@   at "let count = entries.len();"
 //@@|     let ghost list = entries@; let ghost cname = string_of(consumer@);
+//@@|     proof { assert(list == old(self).idx()[cname]@); assert forall|k: int| 0 <= k < list.len() implies old(self).ids().contains_key(#[trigger] list[k]) by { assert(old(self).idx()[cname]@.contains(list[k])); } }
 //@@   loopstart 0
-//@@|     proof { assert(id == list[it.index@ as int]); assert(list.take(it.index@ + 1) =~= list.take(it.index@ as int).push(id)); lemma_push_contains(list.take(it.index@ as int), id); }
+//@@|     proof { assert(id == list[it.index@ as int]); assert(list.take(it.index@ + 1) =~= list.take(it.index@ as int).push(id)); lemma_push_contains(list.take(it.index@ as int), id);
+//@@|         if list.take(it.index@ as int).contains(id) { let k = choose|k: int| 0 <= k < it.index@ && list.take(it.index@ as int)[k] == id; assert(list[k] == id); }
+//@@|         assert(self.entries_by_id@.contains_key(id)); }
 //@@   after "self.update_bounds();"
 //@@|     proof {
 //@@|         let ids0 = old(self).ids(); let idx0 = old(self).idx(); let ids1 = self.ids(); let idx1 = self.idx();
@@ -186,6 +191,8 @@ impl PendingEntryList {
             forall|x: StreamId| #[trigger] final(self).ids().contains_key(x) ==> final(self).ids()[x] == old(self).ids()[x],
             r == owned(old(self).idx(), string_of(consumer@)),
             forall|c: String| #[trigger] owned(final(self).idx(), c) == (if c == string_of(consumer@) { 0 } else { owned(old(self).idx(), c) }),
+            final(self).idx() =~= old(self).idx().remove(string_of(consumer@)),
+            final(self).ids().dom().len() + r == old(self).ids().dom().len(),
 //@@ body
 //@@ end
 }
@@ -304,6 +311,23 @@ impl ConsumerGroup {
             forall|x: StreamId| #[trigger] final(self).pending.ids().contains_key(x) <==> (old(self).pending.ids().contains_key(x) && !ids@.contains(x)),
             forall|x: StreamId| #[trigger] final(self).pending.ids().contains_key(x) ==> final(self).pending.ids()[x] == old(self).pending.ids()[x],
             r == old(self).pending.ids().dom().len() - final(self).pending.ids().dom().len(),
+//@@ body
+//@@ end
+
+//@@ unit group_delete_consumer fn src/storage/consumer_groups.rs ConsumerGroup::delete_consumer
+//@@   params drop "&self" add "&mut self"
+//@@   rewrite RT "let mut consumers = self.consumers.write().unwrap();" "let consumers = &mut self.consumers;"
+//@@   rewrite RT "let mut pending = self.pending.write().unwrap();" "let pending = &mut self.pending;"
+//@@   rewrite RT "let mut count = self.consumer_count.lock().unwrap();" "let count = &mut self.consumer_count;"
+//@@   rewrite RT "let mut total = self.total_pending.lock().unwrap();" "let total = &mut self.total_pending;"
+    fn delete_consumer(&mut self, consumer_name: &str) -> (r: usize)
+        requires old(self).gwf(),
+        ensures final(self).gwf(), final(self).last_delivered_id == old(self).last_delivered_id,
+            // C16 (XGROUP DELCONSUMER): the consumer and exactly its pending entries are gone; the number of those entries is returned
+            final(self).consumers@ == old(self).consumers@.remove(string_of(consumer_name@)),
+            forall|x: StreamId| #[trigger] final(self).pending.ids().contains_key(x) <==> (old(self).pending.ids().contains_key(x) && old(self).pending.ids()[x].consumer != string_of(consumer_name@)),
+            forall|x: StreamId| #[trigger] final(self).pending.ids().contains_key(x) ==> final(self).pending.ids()[x] == old(self).pending.ids()[x],
+            r == (if old(self).consumers@.contains_key(string_of(consumer_name@)) { owned(old(self).pending.idx(), string_of(consumer_name@)) } else { 0 }),
 //@@ body
 //@@ end
 }
